@@ -134,21 +134,16 @@ Record schema := { has_header : bool; col_types : list cand; col_names : list (o
 (* a name is Some header field, or None = generated "column<idx>" *)
 
 (* CsvSchema::infer_from_records; None = the "no records" error.  Two passes over the records after the first
-   (widen, then re-validate); the first record is a header iff one of its NON-EMPTY fields fails its column's
-   candidate.  `infer_schema_old` is the code before those two repairs (one pass; empty fields vote too). *)
-Definition infer_schema_old (records : list (list (list N))) : option (bool * list cand) :=
-  match records with
-  | [] => None
-  | first :: rest =>
-      let cands := fold_left update_row rest (repeat CBool (length first)) in
-      Some (existsb (fun p => negb (is_valid (snd p) (fst p))) (combine first cands), cands)
-  end.
+   (widen, then re-validate).  The header rule is the documented one (reader.rs module doc: "trying to parse the first
+   record into the inferred types ... If it differs, assume a header"): the first record is a header iff some field of
+   it is not `is_valid` for its column's type; an EMPTY field is not valid for Boolean/Int64/Float64, so an empty
+   header name over a typed column marks a header (slt/csv/infer/empty_header_names.slt pins ",,\n1,mario,4\n.."). *)
 Definition infer_schema (records : list (list (list N))) : option schema :=
   match records with
   | [] => None
   | first :: rest =>
       let cands := fold_left revalidate_row rest (fold_left update_row rest (repeat CBool (length first))) in
-      let hdr := existsb (fun p => negb (is_empty (fst p)) && negb (is_valid (snd p) (fst p))) (combine first cands) in
+      let hdr := existsb (fun p => negb (is_valid (snd p) (fst p))) (combine first cands) in
       Some {| has_header := hdr; col_types := cands;
               col_names := if hdr then map (fun p => Some (fst p)) (combine first cands)
                            else map (fun _ => None) cands |}
